@@ -32,6 +32,10 @@ def build_phase(ctx, spec, derive_style=0):
     if o[k]:
       kw[k] = True
   ph = fn
+  if spec.get('monitor'):
+    from openhtf.core import monitors
+    ph = monitors.monitors('mon_' + spec['name'], bodies.make_monitor(ctx, spec['name']),
+                           poll_interval_ms=spec['monitor']['interval_ms'])(fn)
   meas = []
   for m in spec['meas']:
     mm = htf.Measurement(m['name'])
